@@ -215,6 +215,10 @@ pub static mut DMA_CNT: usize = 0;
 /// 0 = allocations never fail; k = the k-th dma_alloc call returns (0, dangling)
 pub static mut DMA_FAIL_AT: usize = 0;
 pub static mut DMA_CALLS: usize = 0;
+/// the first DMA_RING_ALLOCS successful allocations are queue rings (typed); later single-page ones are raw buffers
+pub static mut DMA_RING_ALLOCS: usize = usize::MAX;
+/// device addresses currently attached to a device resource as backing (a release of one of them is a C20 violation)
+pub static mut DMA_PROTECTED: [u64; 2] = [0; 2];
 
 #[repr(C, align(16))]
 pub struct D2DMem<const N: usize> {
@@ -230,7 +234,7 @@ pub struct D2HMem<const N: usize> {
 pub struct RawMem {
     pub words: [u64; RAW_WORDS],
 }
-pub const RAW_WORDS: usize = 1024;
+pub const RAW_WORDS: usize = 2048;
 
 pub fn dma_paddr(i: usize) -> u64 {
     0x10_0000 * (i as u64 + 1)
@@ -257,11 +261,11 @@ unsafe impl<const N: usize> Hal for THal<N> {
             assert!(i < MAXDMA, "harness: DMA log full");
             assert!(pages >= 1, "C06: zero-page DMA allocation");
             let p: *mut u8 = match d {
-                BufferDirection::DriverToDevice if pages == 1 => alloc::boxed::Box::into_raw(alloc::boxed::Box::new(D2DMem::<N> {
+                BufferDirection::DriverToDevice if pages == 1 && i < DMA_RING_ALLOCS => alloc::boxed::Box::into_raw(alloc::boxed::Box::new(D2DMem::<N> {
                     desc: FromZeros::new_zeroed(),
                     avail: AvailRing { flags: AtomicU16::new(0), idx: AtomicU16::new(0), ring: [0; N], used_event: AtomicU16::new(0) },
                 })) as *mut u8,
-                BufferDirection::DeviceToDriver if pages == 1 => alloc::boxed::Box::into_raw(alloc::boxed::Box::new(D2HMem::<N> {
+                BufferDirection::DeviceToDriver if pages == 1 && i < DMA_RING_ALLOCS => alloc::boxed::Box::into_raw(alloc::boxed::Box::new(D2HMem::<N> {
                     used: UsedRing { flags: AtomicU16::new(0), idx: AtomicU16::new(0), ring: core::array::from_fn(|_| UsedElem { id: 0, len: 0 }), avail_event: AtomicU16::new(0) },
                 })) as *mut u8,
                 _ => {
@@ -280,6 +284,7 @@ unsafe impl<const N: usize> Hal for THal<N> {
         assert!(f.is_some(), "C09: dma_dealloc of an address dma_alloc never returned");
         let i = f.unwrap();
         assert!(DMA[i].live, "C09: DMA region released twice");
+        assert!(DMA_PROTECTED[0] != p && DMA_PROTECTED[1] != p, "C20: DMA memory released while it is still attached to a device resource as backing");
         assert!(DMA[i].vaddr == v.as_ptr() && DMA[i].pages == pages && DMA[i].ap == ap, "C09: dma_dealloc arguments differ from the allocation");
         DMA[i].live = false;
         DMA[i].deallocs += 1;
@@ -1366,4 +1371,14 @@ pub fn check_failed_new(e: Error) {
     assert!(e == Error::DmaError, "C09: DMA exhaustion must be reported as DmaError");
     assert!(dma_live_count() == 0, "C09: DMA region leaked by a failed construction");
     assert!(ev_find(EV_SET_STATUS, Some(15), 0).is_none(), "C08: DRIVER_OK set by a failed construction");
+}
+
+/// word-sized device accesses (one unaligned load/store instead of four byte accesses)
+pub unsafe fn dev_rd_u32w(c: &Chain, i: usize, off: usize) -> u32 {
+    assert!(i < c.n && off + 4 <= c.len[i] as usize, "C01: device read beyond the buffer it was given");
+    u32::from_le((c.ptr[i].add(off) as *const u32).read_unaligned())
+}
+pub unsafe fn dev_wr_u32w(c: &Chain, i: usize, off: usize, v: u32) {
+    assert!(i < c.n && c.write[i] && off + 4 <= c.len[i] as usize, "C01: device write beyond the buffer it was given / to a read-only part");
+    (c.ptr[i].add(off) as *mut u32).write_unaligned(v.to_le());
 }
